@@ -309,7 +309,7 @@ def run(chk) -> None:
     chk.note_function(fi)
     why = cli_why = _fact_level(chk, c20e.check_cli, fi)
     if why is None:
-        for rule, n in (("cli-eval", 10), ("cli-inplace-eval", 10)):
+        for rule, n in (("cli-eval", 15), ("cli-inplace-eval", 15)):
             chk.floor(rule, n)
     else:
         chk.ok("cli-facts", fi.where, f"fact-level reading of main not possible ({why[:160]}); falling back to the pinned forms")
